@@ -51,7 +51,20 @@ def h(sym, n, ngo, auxes, symticks, end, parent, first, suspended):
         plan = plan + [None] * symticks + [{"*": 1}, {"*": 1}, None]
     elif end is not None:
         controls.append(end)
-    text, out = flostep.run(sym, prog, controls, plan=plan)
+    def on_assumed(k, control, rlog, robs, fobs):
+        # the reference is silent on transitions into frames below a running conditional auxiliary's main frame;
+        # the statement itself still decides the outline: the chain of the active frame, cut at that main frame
+        r = robs["m"]
+        if r["status"] in (1, 2) and r["active"] is not None:
+            full = expected_chain(info, int(r["active"][1:]))
+            want = full
+            for (name, kind, host) in info["aux"]:
+                if kind == "cond" and robs[name]["actives"] and robs[name]["main"] in full:
+                    want = full[:full.index(robs[name]["main"]) + 1]
+            sym.check(r["actives"] == want, "C05/actives-differ-from-outline",
+                      lambda: "tick %d real %s chain %s expected %s" % (k, r["actives"], full, want))
+
+    text, out = flostep.run(sym, prog, controls, plan=plan, on_assumed=on_assumed)
     for k, (control, rlog, flog, robs, fobs, env) in enumerate(out):
         r, f = robs["m"], fobs["m"]
         if r["status"] in (1, 2):
